@@ -197,7 +197,7 @@ def op_str(o) -> str:
     if k == "rtable":
         return f"session.table({o[1]!r})"
     if k == "rpath":
-        return f"session.read.{o[2]}(<{o[1]}>)"
+        return f"{'r' if len(o) > 3 else 'session.read'}.{o[2]}(<{o[1]}>)" + ("   # r = session.read, kept for the whole history" if len(o) > 3 else "")
     if k == "drop":
         return f"conn.execute('DROP TABLE {o[1]}')"
     if k == "list":
@@ -290,6 +290,7 @@ class Impl:
         self.exc: list = []
         self.notes: list = []
         self.nstep = 0
+        self.reader = None
 
     def close(self):
         try:
@@ -310,9 +311,9 @@ class Impl:
         k = fr["bad"]
         rows = [tuple(r) + ("boom" if i == k else "0",) for i, r in enumerate(fr["rows"])]
         d = self.s.createDataFrame(rows, schema + ", zz string")
-        c0 = cols[0][0]
-        trip = F.when(F.col("zz").cast("bigint") == 0, F.col(c0)).otherwise(F.col(c0)).alias(c0)
-        return d.select(trip, *[n for n, _ in cols[1:]])
+        # every column carries the tripwire: whichever columns a by-name re-projection keeps, the SELECT raises on row k
+        trip = [F.when(F.col("zz").cast("bigint") == 0, F.col(n)).otherwise(F.col(n)).alias(n) for n, _ in cols]
+        return d.select(*trip)
 
     def read_obs(self, df):
         cols = [(f.name, ty_of_engine(f.dataType.simpleString())) for f in df.schema.fields]
@@ -374,7 +375,13 @@ class Impl:
                     return ["err", "EMissing"]
             if k == "rpath":
                 try:
-                    return self.read_obs(getattr(self.s.read, o[2])(self.path(o[1], o[2])))
+                    if len(o) > 3:          # one reader object kept and re-used for every such read of the history
+                        if self.reader is None:
+                            self.reader = self.s.read
+                        rd = self.reader
+                    else:
+                        rd = self.s.read
+                    return self.read_obs(getattr(rd, o[2])(self.path(o[1], o[2])))
                 except Exception as ex:  # noqa: BLE001
                     self.exc.append(f"{type(ex).__name__}: {str(ex)[:160]}")
                     return ["err", "EMissing" if not os.path.exists(self.path(o[1], o[2])) else "EFailed"]
@@ -580,7 +587,7 @@ def mode_pair_histories(tier):
         for how in ("arg", "self"):
             for m1 in MODES:
                 for m2 in MODES:
-                    if tier == "quick" and target != "table" and how == "self" and not (m1 is None or m2 == "overwrite"):
+                    if tier in ("quick", "record") and target != "table" and how == "self" and not (m1 is None or m2 == "overwrite"):
                         continue     # one row/column of the 6x6 table for .mode() on paths (all 36 for the keyword form)
                     if tier == "quick" and target in ("csv", "json") and m1 not in (None, "overwrite", "ignore"):
                         continue     # _write is shared by the formats: the full 6x6 table runs on parquet (and on tables)
@@ -741,6 +748,21 @@ def builder_histories(tier):
     return out
 
 
+def reader_histories(tier):
+    """one reader object (r = session.read) kept and re-used: files with other columns / other formats read one after the
+    other through it must each come back as written (nothing of an earlier read may stick to the reader)"""
+    out = []
+    f3 = frame([("f", "bool"), ("a", "int"), ("s", "str")], [[True, 4, "kx"], [False, None, "w"]])
+    for fmt in FMTS:
+        for second in (FR_BA, FR_C, f3, frame([("s", "str"), ("a", "int")], [["px1", 9]])):
+            out.append([["wpath", "p", fmt, None, None, FR_AS], ["wpath", "q", fmt, None, None, second],
+                        ["rpath", "p", fmt, "kept"], ["rpath", "q", fmt, "kept"], ["rpath", "p", fmt, "kept"], ["rpath", "q", fmt]])
+    for f1, f2 in (("csv", "json"), ("json", "parquet"), ("parquet", "csv")):
+        out.append([["wpath", "p", f1, None, None, FR_AS], ["wpath", "q", f2, None, None, FR_BA], ["rpath", "q", f2, "kept"],
+                    ["rpath", "p", f1, "kept"], ["wpath", "p", f1, "overwrite", None, FR_C], ["rpath", "p", f1, "kept"], ["rpath", "q", f2, "kept"]])
+    return out
+
+
 def random_history(rnd, max_writes=5):
     tables = ["t", "u"]
     paths = {"p": rnd.choice(FMTS), "q": rnd.choice(FMTS)}
@@ -797,14 +819,15 @@ def random_history(rnd, max_writes=5):
             ops.append(["rtable", rnd.choice(tables)])
         elif x < 0.88:
             key = rnd.choice(list(paths))
-            ops.append(["rpath", key, paths[key]])
+            ops.append(["rpath", key, paths[key]] + (["kept"] if rnd.random() < 0.5 else []))
         elif x < 0.93:
             n = rnd.choice(tables)
             if n in cur and rnd.random() < 0.6:
                 ops.append(["rtable", n])                      # dropped after the session has read it
             ops.append(["drop", n])
             cur.pop(n, None)
-            ops += rnd.sample([q for q in catalog_queries(n) if n not in viewed or len(q) < 3 and q != ["list", "db"] and q != ["list", "full"]], 3)
+            qs = [q for q in catalog_queries(n) if n not in viewed or len(q) < 3 and q != ["list", "db"] and q != ["list", "full"]]
+            ops += rnd.sample(qs, min(3, len(qs)))
             if rnd.random() < 0.5:
                 fr = gen_frame(rnd)
                 ops.append(["gsave", n, fr])
@@ -827,7 +850,7 @@ def random_history(rnd, max_writes=5):
         ops.append(["rtable", n])
     for key, f in paths.items():
         if any(o[0] == "wpath" and o[1] == key for o in ops):
-            ops.append(["rpath", key, f])
+            ops.append(["rpath", key, f] + (["kept"] if rnd.random() < 0.5 else []))
     ops += [["list"], ["exists", "t"], ["cols", "u"]]
     return ops
 
@@ -957,6 +980,7 @@ def make_histories(ctx):
     hs += [("catalog", h) for h in catalog_histories(ctx.tier)]
     hs += [("namesake", h) for h in namesake_histories(ctx.tier)]
     hs += [("builder", h) for h in builder_histories(ctx.tier)]
+    hs += [("reader", h) for h in reader_histories(ctx.tier)]
     hs += [("pairs", h) for h in mode_pair_histories(ctx.tier)]
     hs += [("fault", h) for h in fault_histories(rnd, ctx.tier)]
     n_rand = 90 if ctx.tier == "quick" else 2500
